@@ -2,7 +2,25 @@
 
 STDLIB = "Go path/filepath/strings/io-fs functions are modelled (Base/Str, Base/Path), validated on the 'paths' lane, not verified"
 
+FSMODEL = "FS.lean models the Linux VFS + Go os package for the calls Unpack makes (lstat/stat/mkdir/MkdirAll/symlink/create/chmod/chtimes, kernel symlink following, umask 022, root privileges; no hard links, mount points, concurrency, ENOSPC); archive/tar + gzip are trusted as an identity between byte streams and entry lists (the harness decodes with the same library)"
+
 PROPS = {
+    "C12": {
+        "lanes": [
+            {"lane": "unpack-faults", "quick": 12, "thorough": 40},
+        ],
+        "trusted_base": [STDLIB, FSMODEL],
+        "assumptions": ["fault model of the reader: the stream fails (error or clean truncation) at a byte offset; fh.Close() errors inside Unpack cannot be injected through an io.Reader and are outside the property's fault model"],
+        "explanation": "Unpack part: C12_unpack_ok_complete (a run that reports success did everything the fault-free run does, for every fault position), C12_unpack_header_fault_reported, C12_unpack_body_fault_reported, C12_fault_never_illegal / C12_illegal_has_culprit (policy rejections are distinguishable and have a culprit entry). Tie: 'unpack-faults' lane cuts the tar stream at every position (mapped to the model's fault by decoding with archive/tar) and compares full filesystem dumps; gzip-level read errors/truncations are judged by the oracle (success => fully materialised).",
+    },
+    "C15": {
+        "lanes": [
+            {"lane": "unpack", "quick": 2500, "thorough": 60000},
+        ],
+        "trusted_base": [STDLIB, FSMODEL],
+        "assumptions": ["well-formed archives for the oracle: no entry passes through or lands on a link, no kind conflict on a path, names inside dst, link targets relative and staying inside (kind conflicts are outside the property's claim)"],
+        "explanation": "C15_unsupported_fails (a successful Unpack saw only representable entries), C15_unsupported_is_illegal, C15_empty_name_skipped, C15_dirs_restored_last (directory mode/mtime are applied after all entries, in archive order). The refinement to the sequential reading is established by correspondence: the 'unpack' lane compares the real destination tree with the model's filesystem and with an independent reference interpreter of the entry list.",
+    },
     "C03": {
         "lanes": [
             {"lane": "ignore", "quick": 4000, "thorough": 120000},
